@@ -800,7 +800,7 @@ def _from_cartesian(kind: str, v):
     return [r, math.atan2(y, x), math.acos(z / r)]
 
 
-def curvilinear_stream(item, ex, specs, plan, rng, pick_branch):
+def curvilinear_stream(item, ex, specs, plan, rng, pick_branch, fixed=None):
     """Every vector argument is the same geometric vector written in CoordinateSystem(CYLINDRICAL) / (SPHERICAL) (angle slots
     as angle quantities in radian or degree, one shared coordinate-system object); the result is converted to Cartesian
     components HERE and compared with the law function / closed form evaluated at the Cartesian components."""
@@ -813,11 +813,13 @@ def curvilinear_stream(item, ex, specs, plan, rng, pick_branch):
         return []
     recs = []
     syms = sorted({s for a in ex.args for s in a.syms}, key=str)
-    for kind in ("CYLINDRICAL", "SPHERICAL"):
+    for kind in (("CYLINDRICAL", "SPHERICAL") if fixed is None else (fixed[0],)):
         env = {s: nice_value(s, plan, rng) for s in syms}
         for a in vec_args:                      # generic direction: no zero component, azimuth not a multiple of pi
             for s, v in zip(a.value.components, (rng.randint(1, 9), -rng.randint(1, 9), rng.randint(1, 9))):
                 env[s] = sympy.Rational(v * rng.randint(1, 9), rng.randint(1, 4))
+        if fixed is not None:                   # replay of a recorded tuple
+            env = dict(fixed[1])
         cs = CoordinateSystem(getattr(CoordinateSystem.System, kind))
         try:
             kwargs, desc = build_call(ex, env, rng, plan)
